@@ -179,3 +179,90 @@ Proof.
   intros H. split; [exact (forced_never_from_module_or_contract x g' H)|].
   apply forced_transfer_iff in H. tauto.
 Qed.
+
+(** * MsgIbcTransferRequest *)
+
+Lemma ibc_transfer_iff x g' :
+  ibc_transfer x = Some g' <->
+  (x_type x = TRestricted /\ has RTransfer (x_rights x) = true /\
+   0 < m_amt (x_msg x) <= x_frombal x /\
+   ((x_self x = true /\ g' = x_grant x) \/
+    (x_self x = false /\ exists g r, x_grant x = Some g /\ accept g (x_msg x) = Some r /\ g' = stored_after r))).
+Proof.
+  unfold ibc_transfer, ibc_transfer_gen. cbn [andb].
+  destruct (Z.leb_spec (m_amt (x_msg x)) 0) as [Hle|Hpos].
+  { split; [discriminate|]. intros (_ & _ & [H _] & _). lia. }
+  destruct (x_type x); cbn [is_restricted negb].
+  { split; [discriminate|]. intros (H & _). discriminate. }
+  destruct (has RTransfer (x_rights x)); cbn [negb].
+  2:{ split; [discriminate|]. intros (_ & H & _). discriminate. }
+  destruct (x_self x) eqn:Eself.
+  - destruct (Z.ltb_spec (x_frombal x) (m_amt (x_msg x))) as [Hlt|Hge].
+    + split; [discriminate|]. intros (_ & _ & [_ H] & _). lia.
+    + split.
+      * intros [= <-]. repeat split; auto; try lia.
+      * intros (_ & _ & _ & [[_ ->]|[H _]]); [reflexivity|discriminate].
+  - destruct (x_grant x) as [g|] eqn:Eg.
+    + destruct (accept g (x_msg x)) as [r|] eqn:Ea.
+      * destruct (Z.ltb_spec (x_frombal x) (m_amt (x_msg x))) as [Hlt|Hge].
+        -- split; [discriminate|]. intros (_ & _ & [_ H] & _). lia.
+        -- split.
+           ++ intros [= <-]. repeat split; auto; try lia. right. split; [reflexivity|]. eauto.
+           ++ intros (_ & _ & _ & [[H _]|(_ & g0 & r0 & Hg & Hacc & ->)]); [discriminate|].
+              inversion Hg; subst g0. rewrite Ea in Hacc. inversion Hacc; subst r0. reflexivity.
+      * split; [discriminate|].
+        intros (_ & _ & _ & [[H _]|(_ & g0 & r0 & Hg & Hacc & _)]); [discriminate|].
+        inversion Hg; subst g0. rewrite Ea in Hacc. discriminate.
+    + split; [discriminate|].
+      intros (_ & _ & _ & [[H _]|(_ & g0 & r0 & Hg & _)]); discriminate.
+Qed.
+
+(** An ibc transfer out of somebody else's account goes through only under that account's grant. *)
+Lemma ibc_third_party_needs_grant x g' :
+  ibc_transfer x = Some g' -> x_self x = false ->
+  exists g r, x_grant x = Some g /\ accept g (x_msg x) = Some r /\ g' = stored_after r.
+Proof.
+  intros H Hs. apply ibc_transfer_iff in H. destruct H as (_ & _ & _ & [[H _]|[_ H]]); [congruence|exact H].
+Qed.
+
+(** Sharing TransferCoin's source logic (forced branch included) lets an ibc transfer out of
+    another account through with no grant at all. *)
+Lemma ibc_forced_branch_refuted : exists x g',
+  x_self x = false /\ x_grant x = None /\
+  ibc_transfer_gen true accept x = Some g' /\ ibc_transfer x = None.
+Proof.
+  exists {| x_status := SActive; x_type := TRestricted; x_rights := 192; x_forced := true; x_self := false;
+            x_from := {| a_group := false; a_exists := true; a_seq := 3; a_marker := false; a_market := false |};
+            x_dest := DPlain; x_grant := None; x_msg := {| m_to := 9%N; m_denom := 1%N; m_amt := 5 |};
+            x_frombal := 50 |}, None.
+  vm_compute. repeat split.
+Qed.
+
+(** * The whole-supply escape reads the RECORDED supply *)
+
+Lemma all_supply_is_the_recorded_supply c sf o :
+  (o = OAddAccess \/ o = ODeleteAccess) ->
+  has RAdmin (c_rights c) = false -> c_manager c = false ->
+  decide (with_supply c sf) o = Done ->
+  sf_balance sf = sf_record sf /\ sf_record sf <> 0.
+Proof.
+  intros Ho Hr Hm. unfold decide, decide_gen, controls_all_supply, with_supply, with_supply_flags, done;
+    cbn [c_status c_rights c_manager c_allsupply c_supply_zero].
+  rewrite Hr, Hm. cbn [andb orb].
+  destruct (Z.eqb_spec (sf_record sf) 0) as [E0|E0], (Z.eqb_spec (sf_record sf) (sf_balance sf)) as [E1|E1];
+    destruct Ho as [-> | ->]; destruct (c_status c); cbn; intros H; try discriminate; split; auto.
+Qed.
+
+(** Comparing the balance with what the bank says exists instead: the holder of all 600 remaining
+    coins of a floating marker recorded at 1000 changes the access list without any right. *)
+Lemma circulating_supply_variant_refuted : exists c sf o,
+  c_rights c = 0%N /\ c_manager c = false /\ c_gov c = false /\
+  sf_balance sf = sf_bank sf /\ sf_balance sf < sf_record sf /\
+  decide (with_supply_circulating c sf) o = Done /\ decide (with_supply c sf) o = Denied /\
+  req_met (with_supply c sf) (documented o (c_status c) (c_type c)) = false.
+Proof.
+  exists {| c_status := SActive; c_type := TCoin; c_rights := 0; c_manager := false; c_gov := false;
+            c_govctl := true; c_allsupply := false; c_supply_zero := false; c_activated := true |},
+         {| sf_record := 1000; sf_bank := 600; sf_balance := 600 |}, OAddAccess.
+  vm_compute. repeat split.
+Qed.
